@@ -112,7 +112,24 @@ func (c *caseRun) runBatchGen(sp batchSpec, wg *sync.WaitGroup) {
 		<-sem
 		close(ccReady)
 	}()
-	err := w.Batch(b)
+	var err error
+	func() {
+		// the writer of a generation that was overtaken by a simulated crash is closed in the background
+		// ("the old process goes on unobserved"); a Batch that only now reaches it uses a closed writer,
+		// which bluge answers with a nil dereference: API misuse by the harness, nothing to observe
+		defer func() {
+			if r := recover(); r != nil {
+				c.mu.Lock()
+				stale := c.gen != gen
+				c.mu.Unlock()
+				if !stale {
+					panic(r)
+				}
+				err = fmt.Errorf("abandoned writer: %v", r)
+			}
+		}()
+		err = w.Batch(b)
+	}()
 	c.mu.Lock()
 	if c.curIntro == intro {
 		c.curIntro, c.curSpec = nil, nil
